@@ -297,6 +297,18 @@ where
             return Err(Error::OpenedFileAsDir);
         }
 
+        // The start cluster comes from the disk - make sure it exists before
+        // anything tries to read it
+        match &data.open_volumes[volume_idx].volume_type {
+            VolumeType::Fat(fat) => {
+                if dir_entry.cluster != ClusterId::ROOT_DIR
+                    && !fat.cluster_in_range(dir_entry.cluster)
+                {
+                    return Err(Error::BadCluster);
+                }
+            }
+        }
+
         // We don't check if the directory is already open - directories hold
         // no cached state and so opening a directory twice is allowable.
 
